@@ -9,6 +9,7 @@ package main
 import (
 	"encoding/json"
 	"fmt"
+	"math"
 	"os"
 	"sync/atomic"
 
@@ -126,6 +127,10 @@ var affines = [][6]float64{
 	{1e6 / 3, -1e6 / 7, 1e6 / 11, 1e6 / 13, 123456.789, -98765.4321},
 	{0, 1.1, -0.9, 0, 0.3, 0.7},
 	{3.3, 3.1, 1.7, -2.9, 1e-3, 1e-3},
+	// exact scalings by 2^665 (about 1.5e200) and 2^-665: products of two
+	// coordinate differences leave the float64 range, quotients do not
+	{math.Ldexp(1, 665), 0, 0, math.Ldexp(1, 665), 0, 0},
+	{math.Ldexp(1, -665), 0, 0, math.Ldexp(1, -665), 0, 0},
 }
 
 func build(c Case, scale float64) (geom.Polygonal, geom.Point) {
@@ -211,7 +216,7 @@ func main() {
 		return
 	}
 	r := report.New("C02", tier, "model_checking")
-	r.Rule = "E1: (a) every ring of 3 and 4 (thorough: 5) vertices over {0..3}^2 (thorough 5-rings over {0..2}^2), repeated vertices and self-intersections included, closed and unclosed spelling, x all 81 points of the half-integer grid over [-0.5,3.5]^2; (b) every two-ring Polygon and two-member MultiPolygon over the 504 triangles of {0..2}^2 x 49 half-integer points; (b') the same family on one polygon value per worker, rings cut from one flat buffer and edited in place between cases (answers depend on current coordinates only; caller's buffer not written); (c) every box over {0..3}^2 as *Bounds; (d) the 3-/4-vertex rings through 6 affine maps with non-representable coefficients at points with an exactly verified margin; (e) MultiPoint/LineString/MultiLineString/Polygon receivers with all vertex lists of length <= 2 (3 on a sub-grid) against 6 target shapes. Oracle: integer on-segment test and half-open crossing parity. Non-trivial = queries whose reference answer is OnEdge or whose ray passes through a vertex."
+	r.Rule = "E1: (a) every ring of 3 and 4 (thorough: 5) vertices over {0..3}^2 (thorough 5-rings over {0..2}^2), repeated vertices and self-intersections included, closed and unclosed spelling, x all 81 points of the half-integer grid over [-0.5,3.5]^2; (b) every two-ring Polygon and two-member MultiPolygon over the 504 triangles of {0..2}^2 x 49 half-integer points; (b') the same family on one polygon value per worker, rings cut from one flat buffer and edited in place between cases (answers depend on current coordinates only; caller's buffer not written); (c) every box over {0..3}^2 as *Bounds; (d) the 3-/4-vertex rings through 6 affine maps with non-representable coefficients and 2 exact scalings by 2^665 and 2^-665 at points with an exactly verified margin; (e) MultiPoint/LineString/MultiLineString/Polygon receivers with all vertex lists of length <= 2 (3 on a sub-grid) against 6 target shapes. Oracle: integer on-segment test and half-open crossing parity. Non-trivial = queries whose reference answer is OnEdge or whose ray passes through a vertex."
 	var n, nontrivial, skipped int64
 	viol := func(fam string, c Case, scale int64, sym, det string) {
 		r.Violation(fmt.Sprintf("%s|%s|%s", fam, c.AsType, sym), map[string]interface{}{"case": c, "scale": scale, "observed": det})
